@@ -559,6 +559,75 @@ func genC07() string {
 		retU = exprText(r.Results[0])
 	}
 	w("/-- the map expression of the final return of VerificationOutcome.UserMetadata -/\n")
-	w("def c07UserMetadataReturns : String := %s\n", leanStr(retU))
+	w("def c07UserMetadataReturns : String := %s\n\n", leanStr(retU))
+
+	// ---- mutable state of the signer objects ------------------------------------------------
+	// every write to a field of the receiver in a method of the signer types: (type, method, field)
+	var writes []string
+	for _, file := range []string{"signer/signer.go", "signer/plugin.go"} {
+		for _, wr := range c07ReceiverWrites(parseFile(file)) {
+			writes = append(writes, "("+leanStr(wr[0])+", "+leanStr(wr[1])+", "+leanStr(wr[2])+")")
+		}
+	}
+	w("/-- every assignment to a field of the receiver in the methods of signer/signer.go and\n")
+	w("signer/plugin.go (type, method, field): what a signer object can remember between calls -/\n")
+	w("def c07SignerFieldWrites : List (String × String × String) := [%s]\n", strings.Join(writes, ", "))
 	return b.String()
+}
+
+// c07ReceiverWrites lists (type, method, field) for every statement of a method that writes to a
+// field of its receiver: `r.f = x`, `r.f op= x`, `r.f[k] = x`, `r.f++`, `*r = x` (field "*").
+func c07ReceiverWrites(f *ast.File) [][3]string {
+	var out [][3]string
+	for _, d := range f.Decls {
+		fd, ok := d.(*ast.FuncDecl)
+		if !ok || fd.Recv == nil || fd.Body == nil || len(fd.Recv.List) != 1 || len(fd.Recv.List[0].Names) != 1 {
+			continue
+		}
+		recv := fd.Recv.List[0].Names[0].Name
+		t := fd.Recv.List[0].Type
+		if st, ok := t.(*ast.StarExpr); ok {
+			t = st.X
+		}
+		typ := exprText(t)
+		var field func(e ast.Expr) (string, bool)
+		field = func(e ast.Expr) (string, bool) {
+			switch x := e.(type) {
+			case *ast.SelectorExpr:
+				if id, ok := x.X.(*ast.Ident); ok && id.Name == recv {
+					return x.Sel.Name, true
+				}
+				return field(x.X)
+			case *ast.IndexExpr:
+				return field(x.X)
+			case *ast.StarExpr:
+				if id, ok := x.X.(*ast.Ident); ok && id.Name == recv {
+					return "*", true
+				}
+				return field(x.X)
+			case *ast.ParenExpr:
+				return field(x.X)
+			}
+			return "", false
+		}
+		ast.Inspect(fd.Body, func(n ast.Node) bool {
+			switch x := n.(type) {
+			case *ast.AssignStmt:
+				if x.Tok == token.DEFINE {
+					return true
+				}
+				for _, l := range x.Lhs {
+					if fl, ok := field(l); ok {
+						out = append(out, [3]string{typ, fd.Name.Name, fl})
+					}
+				}
+			case *ast.IncDecStmt:
+				if fl, ok := field(x.X); ok {
+					out = append(out, [3]string{typ, fd.Name.Name, fl})
+				}
+			}
+			return true
+		})
+	}
+	return out
 }
